@@ -55,6 +55,7 @@ type verifOp struct {
 	body []byte
 	ct   int // 0 nil, 1 "text/a", 2 "text/b"
 	part int // 1..2
+	cls  bool // PutObject names the storage class STANDARD explicitly
 }
 
 const (
@@ -161,7 +162,12 @@ func verifApply(e *verifEnv, m *verifModel, op verifOp) {
 		}
 	case opPut:
 		ct := verifCT(op.ct)
-		_, err := e.st.PutObject(verifCtx, e.bucket, key, ct, bytes.NewReader(op.body), nil, nil)
+		var popts *storage.PutObjectOptions
+		if op.cls {
+			std := "STANDARD"
+			popts = &storage.PutObjectOptions{StorageClass: &std}
+		}
+		_, err := e.st.PutObject(verifCtx, e.bucket, key, ct, bytes.NewReader(op.body), nil, popts)
 		if !m.bucket {
 			verifAssert(err == storage.ErrNoSuchBucket, "PutObject into an absent bucket")
 			return
@@ -377,6 +383,8 @@ func verifSetup(e *verifEnv, m *verifModel, which int) {
 		verifSetVersioning(e, m, 1)
 		script(verifOp{kind: opPut, key: 0, body: x, ct: 1})
 		verifSetVersioning(e, m, 2)
+	case 12: // a written with the storage class named explicitly
+		script(verifOp{kind: opCreateBucket}, verifOp{kind: opPut, key: 0, body: x, ct: 1, cls: true})
 	case 10: // two-part object a (put + append) and a pending upload on b
 		script(verifOp{kind: opCreateBucket}, verifOp{kind: opPut, key: 0, body: x, ct: 1}, verifOp{kind: opAppend, key: 0, body: y}, verifOp{kind: opMPCreate, key: 1, ct: 2})
 	case 9: // pending upload on a holding only part 2 (a gap)
